@@ -126,6 +126,13 @@ def run(rep, tier):
             seqs += list(itertools.product(hot, repeat=3))
         else:
             seqs += list(itertools.product(TEMPLATES, repeat=n))
+    # every builtin (stdout-producing and stderr-producing) with every sequence of up to two output redirections,
+    # followed by a further command whose descriptors are recorded as well
+    OUTR = ['> f1', '>> f1', '2> f1', '2>> f2', '2>&1', '1>&2', '> f2', '2> f2']
+    for b in ('alias', 'unalias nosuch', 'minfd'):
+        for n in (1, 2):
+            for rs in itertools.product(OUTR, repeat=n):
+                seqs.append(('%s %s' % (b, ' '.join(rs)), 'vh-argv after'))
     states = set()
     for seq, line, obs in common.pmap(run_seq, seqs, chunk=8):
         rep.evaluations += 1
